@@ -4,7 +4,7 @@ from simcheck import sim_check
 
 def run(tier, seed, replay):
     kws = [dict(auth="custom", events=True), dict(auth="custom", events=True, nclients=3), dict(auth="custom", policy="white", events=True), dict(auth="none", events=True)]
-    return sim_check("C07", tier, seed, kws, n_quick=200, n_thorough=5000, oracle_props={"C07"},
+    return sim_check("C07", tier, seed, kws, n_quick=200, n_thorough=20000, oracle_props={"C07"},
                      rule_extra=", clients that are authorized late or never (custom authorization), server events of every kind emitted in arbitrary frames",
                      extra_assumptions=["the protocol-hash handshake decision (authorized iff hashes equal, mismatch notification + disconnect request) is proved on the check_protocol model under C14 "
                                         "and the hash itself is tied to the code there; sim scripts use AuthMethod::None and AuthMethod::Custom"],
